@@ -3,7 +3,7 @@
    is shown equal to a declarative relation and to plain equality / prefix tests on literal patterns.
    The command: which subject is matched (Rm.rm_matches), that a matching entry is removed whole and in
    the right order (C15), and only inside files/ and info/ (C11).  Proofs in Proofs/GlobProofs.v. *)
-From TV Require Import Prelude.Str Prelude.PosixPath Logic.Glob Logic.GlobSpec Cmd.Rm Proofs.GlobProofs.
+From TV Require Import Prelude.Str Prelude.PosixPath Logic.Glob Logic.GlobSpec Cmd.Rm Proofs.GlobProofs Prog.Prog Cmd.Scan Proofs.ProgProofs Proofs.RmDecision.
 Open Scope N_scope.
 
 Theorem glob_match_iff : forall items s, glob_match items s = true <-> gmatch items s.
@@ -28,6 +28,26 @@ Proof. exact prefix_star_lemma. Qed.
 Print Assumptions prefix_star.
 
 (* the subject: the full original path iff the pattern starts with '/', else its base name *)
+(* the decision, against every answer of the environment: inside one trash directory (attached volume v) a path is removed
+   only if it is the info file, or the payload path of the info file, whose contents AS JUST READ carry a Path that, joined to
+   v, matches the pattern; unreadable, undecodable, Path-less and non-matching entries are never touched.  rm_main runs this
+   handler on every directory the scanner finds (Rm.rm_main); which directories those are is C08, that the removal is whole
+   and ordered is C15, that it stays inside files/ and info/ is C11. *)
+Theorem rm_removes_only_matching : forall pattern td volume,
+  all_runs (fun t _ => accepts (rm_dec_step pattern volume) [] t <> None) (rm_handle pattern tt (Found td volume)).
+Proof. exact rm_removes_only_matching_lemma. Qed.
+Print Assumptions rm_removes_only_matching.
+
+Example non_matching_removal_rejected :
+  accepts (rm_dec_step ($"a*") [c_slash]) []
+    [(ReadText ($"/t/info/b.trashinfo"), RStr ($"[Trash Info]" ++ [10] ++ $"Path=/home/u/b" ++ [10])); (Remove ($"/t/files/b"), RUnit)] = None.
+Proof. vm_compute. reflexivity. Qed.
+Example matching_removal_accepted :
+  accepts (rm_dec_step ($"a*") [c_slash]) []
+    [(ReadText ($"/t/info/x.trashinfo"), RStr ($"[Trash Info]" ++ [10] ++ $"Path=/home/u/abc" ++ [10])); (Remove ($"/t/files/x"), RUnit);
+     (Remove ($"/t/info/x.trashinfo"), RUnit)] <> None.
+Proof. vm_compute. discriminate. Qed.
+
 Theorem rm_subject : forall c pat loc,
   rm_matches (c :: pat) loc = Some (fnmatchcase (if c =? c_slash then loc else basename loc) (c :: pat)).
 Proof. reflexivity. Qed.
